@@ -83,7 +83,18 @@ def links_ok(n) -> bool:
     return all(c.parent is n and links_ok(c) for c in n.children)
 
 
-def observe(root, rng: random.Random, *, mutants: bool = True) -> dict:
+def unlink(root, rng: random.Random) -> None:
+    """Parent links dropped or left stale (a tree assembled by appending to children lists, a sub-tree grafted from another
+    tree): what flatten() returns is a function of values, spans and children lists only."""
+    for n in list(root):
+        r = rng.random()
+        if r < 0.4:
+            n.parent = None
+        elif r < 0.7:
+            n.parent = type(root)("stale", bytes(rng.randrange(256) for _ in range(rng.randrange(0, 6))), "", 0, 0)
+
+
+def observe(root, rng: random.Random, *, mutants: bool = True, only_flatten: bool = False) -> dict:
     """Everything the library says about this tree.  Failures are recorded, not raised."""
     from multidecoder.json_conversion import json_to_tree, tree_to_json
     from multidecoder.query import squash_replace, string_summary
@@ -97,6 +108,10 @@ def observe(root, rng: random.Random, *, mutants: bool = True) -> dict:
             rec["failed"].append(f"{name}:{type(e).__name__}")
 
     attempt("flatten", lambda: b2l(root.flatten()))
+    if "flatten" not in rec:
+        rec["flatten"] = [-1]           # no byte string at all: never equal to what Tree.Flatten yields
+    if only_flatten:
+        return rec
     with warnings.catch_warnings():
         warnings.simplefilter("ignore")
         attempt("squash", lambda: b2l(squash_replace(root.value, root.children)))
@@ -371,6 +386,13 @@ def run(prop: str, tier: str) -> int:
                 f.write(json.dumps(rec) + "\n")
                 n += 1
                 nontrivial += 1 if t["kids"] else 0
+                if prop == "C19" and t["kids"] and n % 3 == 0:
+                    root = build(t, Node)
+                    unlink(root, rng)
+                    rec = observe(root, rng, mutants=False, only_flatten=True)
+                    rec["origin"] = f"universe {fam}, parent links dropped / stale"
+                    f.write(json.dumps(rec) + "\n")
+                    n += 1
             res.sample({"universe": fam, "trees": len(uni), "replayed": len(pick)})
         # random deeper trees with all byte values and non-ASCII labels (C20's quantifier)
         for i in range(300 if tier == "quick" else 6000):
@@ -380,6 +402,12 @@ def run(prop: str, tier: str) -> int:
             f.write(json.dumps(rec) + "\n")
             n += 1
             nontrivial += 1
+            if prop == "C19" and i % 2:
+                unlink(root, rng)
+                rec = observe(root, rng, mutants=False, only_flatten=True)
+                rec["origin"] = "random tree, parent links dropped / stale"
+                f.write(json.dumps(rec) + "\n")
+                n += 1
         # direction B: real scan results
         md = Multidecoder()
         inputs = scan_inputs(tier, "tree-scan:" + prop)
